@@ -18,7 +18,7 @@ import tempfile
 
 from .core import REPO, VERIF
 
-NEEDS = {'C18': ['Python', 'Patterns'], 'C19': ['Python', 'Specs']}
+NEEDS = {'C18': ['Python', 'Patterns'], 'C19': ['Python', 'Specs'], 'C11': ['Python', 'Specs']}
 
 
 def _overlay(dst, parts, edited):
